@@ -99,7 +99,7 @@ def run_verus_unit(res, unit_name, src_root, allow):
     twin_p = os.path.join(gen_dir, unit_name + '_vacuity.rs')
     allowed = set(allow.get(unit_name, []))
     demote_reasons = {}
-    for attempt in range(8):
+    for attempt in range(12):
         open(main_p, 'w').write(u.generated)
         open(twin_p, 'w').write(u.twins)
         # trusted-base scan against allow-list (demoted functions are reported separately, not as allowed assumptions)
@@ -129,8 +129,13 @@ def run_verus_unit(res, unit_name, src_root, allow):
                 break
         if not newly:
             break
-        u.demote.add(newly[0])
-        demote_reasons[newly[0]] = newly[1]
+        fn_has_hints = any(f['fn'] == newly[0] and f.get('hints') for f in u.functions)
+        if fn_has_hints and newly[0] not in u.drop_hints:
+            # the error may sit in proof text that no longer fits the changed body: drop this function's hints first
+            u.drop_hints.add(newly[0])
+        else:
+            u.demote.add(newly[0])
+            demote_reasons[newly[0]] = newly[1]
         try:
             u.generate()
         except (ExtractError, LexError) as e:
@@ -329,6 +334,16 @@ def finish(res, cfg, t0, seed):
             res.undecided.append('unit %s: proof hint anchor lost (%s) and the proof of "%s" no longer goes through; no failing input found on the real code - undecided, not an alarm'
                                  % (v['unit'], '; '.join(v.get('anchors_lost', []))[:200], v['obligation'][:120]))
             res.violations.remove(v)
+    # tentative (hint-less / demoted) failures confirmed by ONE function-level witness are one violation, not many
+    grouped = {}
+    for v in list(res.violations):
+        if v.get('tentative') and v.get('witness'):
+            key = (v['unit'], v['fn'])
+            if key in grouped:
+                grouped[key].setdefault('also_failed', []).append(v['obligation'])
+                res.violations.remove(v)
+            else:
+                grouped[key] = v
     for v in res.violations:
         matched = None
         for k in kf:
@@ -399,6 +414,10 @@ def run_property(pid, tier, seed):
     lock = open(os.path.join(BUILD, pid, '.lock'), 'w')
     fcntl.flock(lock, fcntl.LOCK_EX)
     src = sync_tree(pid)
+    import glob
+    os.makedirs(os.path.join(VERIF, 'replay'), exist_ok=True)
+    for old_rp in glob.glob(os.path.join(VERIF, 'replay', pid + '_*.json')):
+        os.remove(old_rp)
     res = Result(pid, tier)
     allow = json.load(open(os.path.join(VERIF, 'contracts', 'trusted_allowlist.json')))
     for un in pc.get('verus', []):
